@@ -128,6 +128,58 @@ fn prefix_ok(partial_items: &str, baseline: &str) -> bool {
     baseline.starts_with(partial_items)
 }
 
+/// Drive an iterator and keep calling next() a few times after an Err: every Ok item, before or after
+/// an error, must be the intact file's item at that position. Returns Ok(rendering) when the iterator
+/// ended without error, Err(text) when it failed, and a violation detail when an item differs.
+fn iterate_checked<I, T>(it: I, base_items: &[&str], render: impl Fn(&T) -> String) -> (std::result::Result<String, String>, Option<String>)
+where
+    I: Iterator<Item = Result<T>>,
+{
+    let mut it = it;
+    let mut n = 0usize;
+    let mut errs = 0u32;
+    let mut first_err: Option<String> = None;
+    let mut items: Vec<String> = Vec::new();
+    loop {
+        match it.next() {
+            None => break,
+            Some(Ok(p)) => {
+                let s = render(&p);
+                if base_items.get(n).map_or(true, |b| *b != s) {
+                    return (
+                        Err("different".into()),
+                        Some(format!(
+                            "item {} {} differs from the intact file: got {} expected {:?}",
+                            n,
+                            if errs > 0 { "(yielded by calling next() again after an Err)" } else { "(yielded before any error)" },
+                            s.chars().take(120).collect::<String>(),
+                            base_items.get(n).map(|b| b.chars().take(120).collect::<String>())
+                        )),
+                    );
+                }
+                items.push(s);
+                n += 1;
+                if n > base_items.len() + 2 {
+                    break;
+                }
+            }
+            Some(Err(e)) => {
+                errs += 1;
+                if first_err.is_none() {
+                    first_err = Some(err_str(&e));
+                }
+                if errs > 3 {
+                    break;
+                }
+            }
+        }
+    }
+    match first_err {
+        Some(e) => (Err(format!("after {} items: {}", n, e)), None),
+        None => (Ok(format!("{}|none", items.join(";"))), None),
+    }
+}
+
 pub fn all_blobs(imgs: &[Image], extra: &[Blob]) -> Vec<Blob> {
     let mut v: Vec<Blob> = Vec::new();
     for im in imgs {
@@ -257,8 +309,47 @@ pub fn judge_variant(img: &[u8], base: &Baseline, r: &mut Rng, must_detect: bool
     for op in seq {
         let (label, slot, res): (String, usize, std::result::Result<std::result::Result<String, String>, String>) = match &op {
             ReadOp::Meta => ("descriptors".into(), n, guarded(|| Ok(meta_lines(&rd, true).join("\n")))),
-            ReadOp::Raw(i) => (format!("raw{}", i), *i, guarded(|| render_raw(read_raw(&mut rd, &base.pcs[*i], 1 << 20)))),
-            ReadOp::Simple(i) => (format!("simple{}", i), *i, guarded(|| render_simple(read_simple(&mut rd, &base.pcs[*i], Opts::DEFAULT, 1 << 20)))),
+            ReadOp::Raw(i) => {
+                let items: Vec<&str> = base.raw[*i].rsplit_once('|').map(|(a, _)| a).unwrap_or("").split(';').filter(|x| !x.is_empty()).collect();
+                let mut viol_detail: Option<String> = None;
+                let r = guarded(|| match rd.pointcloud_raw(&base.pcs[*i]) {
+                    Ok(it) => {
+                        let (res, v) = iterate_checked(it, &items, |p: &RawValues| raw_str(p));
+                        viol_detail = v;
+                        res
+                    }
+                    Err(e) => Err(err_str(&e)),
+                });
+                if let Some(d) = viol_detail {
+                    out.viol = Some((format!("read/different-item/{}/raw", what), d));
+                    return out;
+                }
+                (format!("raw{}", i), *i, r)
+            }
+            ReadOp::Simple(i) => {
+                let items: Vec<&str> = base.simple[*i].rsplit_once('|').map(|(a, _)| a).unwrap_or("").split(';').filter(|x| !x.is_empty()).collect();
+                let mut viol_detail: Option<String> = None;
+                let r = guarded(|| match rd.pointcloud_simple(&base.pcs[*i]) {
+                    Ok(mut it) => {
+                        let o = Opts::DEFAULT; // the same options as the baseline
+                        it.spherical_to_cartesian(o.s2c());
+                        it.cartesian_to_spherical(o.c2s());
+                        it.intensity_to_color(o.i2c());
+                        it.normalize_intensity(o.ni());
+                        it.normalize_color(o.nc());
+                        it.apply_pose(o.pose());
+                        let (res, v) = iterate_checked(it, &items, |p: &Point| point_str(p));
+                        viol_detail = v;
+                        res
+                    }
+                    Err(e) => Err(err_str(&e)),
+                });
+                if let Some(d) = viol_detail {
+                    out.viol = Some((format!("read/different-item/{}/simple", what), d));
+                    return out;
+                }
+                (format!("simple{}", i), *i, r)
+            }
             ReadOp::Blob(i) => (format!("blob{}", i), base.pcs.len() + *i, guarded(|| render_blob(read_blob(&mut rd, &base.blobs[*i])))),
         };
         let expect: String = match &op {
@@ -335,6 +426,50 @@ pub fn run(a: &Args, rep: &mut Reporter) {
                 rep.stat("pages_crc_checked", 1);
                 if bytes[p * PAGE + PAYLOAD..(p + 1) * PAGE] != c.to_be_bytes() {
                     rep.violation("C07", "stored-checksum-not-crc32c-be", idx, &format!("file {} page {}: stored {:02x?} independent CRC-32C {:08x}", file_no, p, &bytes[p * PAGE + PAYLOAD..(p + 1) * PAGE], c));
+                }
+            }
+            // the checksum routine on payload lengths that are not a multiple of 4 / 8: the two standalone
+            // functions accept any page size, so the same logical stream is re-paged with an independent CRC
+            {
+                let log = crate::crc::logical(&bytes);
+                let xml_log = crate::crc::phys_to_log(u64::from_le_bytes(bytes[24..32].try_into().unwrap_or([0; 8]))) as usize;
+                let xml_len = u64::from_le_bytes(bytes[32..40].try_into().unwrap_or([0; 8])) as usize;
+                let mut rr = Rng::new(crate::rng::mix(&[a.seed, 0x9A6E, file_no]));
+                for ps in [1023usize, 1022, 1021, 514, 259, 2048, 517] {
+                    let pay = ps - 4;
+                    let pages_n = (log.len() + pay - 1) / pay;
+                    let mut l2 = log.clone();
+                    l2.resize(pages_n * pay, 0);
+                    l2[16..24].copy_from_slice(&((pages_n * ps) as u64).to_le_bytes());
+                    l2[24..32].copy_from_slice(&((xml_log + 4 * (xml_log / pay)) as u64).to_le_bytes());
+                    l2[40..48].copy_from_slice(&(ps as u64).to_le_bytes());
+                    let mut img2 = Vec::with_capacity(pages_n * ps);
+                    for p in 0..pages_n {
+                        let chunk = &l2[p * pay..(p + 1) * pay];
+                        img2.extend_from_slice(chunk);
+                        img2.extend_from_slice(&crc32c(chunk).to_be_bytes());
+                    }
+                    rep.stat("other_page_size_images", 1);
+                    cover.hit_num("page_sizes_validated", ps as u64);
+                    match guarded(|| E57Reader::validate_crc(Cursor::new(img2.clone()))) {
+                        Ok(Ok(got)) if got == ps as u64 => {}
+                        other => rep.violation("C07", &format!("validate_crc/intact-rejected/page-size-mod4={}", ps % 4), idx, &format!("file {} re-paged to {} byte pages with an independent CRC-32C: validate_crc says {:?}", file_no, ps, other.map(|r| r.map_err(|e| err_str(&e))))),
+                    }
+                    match guarded(|| E57Reader::raw_xml(Cursor::new(img2.clone()))) {
+                        Ok(Ok(x)) if x == log[xml_log..xml_log + xml_len] => {}
+                        other => rep.violation("C07", &format!("raw_xml/intact-differs/page-size-mod4={}", ps % 4), idx, &format!("file {} re-paged to {} byte pages: raw_xml gives {:?}", file_no, ps, other.map(|r| r.map(|x| x.len()).map_err(|e| err_str(&e))))),
+                    }
+                    // any altered byte of the tail of a page must be detected too
+                    for _ in 0..6 {
+                        let mut img3 = img2.clone();
+                        let p = rr.usize(pages_n);
+                        let tail = 1 + rr.usize(8);
+                        let at = p * ps + ps - 4 - tail.min(ps - 4);
+                        img3[at] ^= 1 << rr.usize(8);
+                        if let Ok(Ok(_)) = guarded(|| E57Reader::validate_crc(Cursor::new(img3))) {
+                            rep.violation("C07", &format!("validate_crc/accepted/1bit-page-tail/page-size-mod4={}", ps % 4), idx, &format!("file {} with {} byte pages: a flipped bit {} bytes before the checksum of page {} is not detected", file_no, ps, tail, p));
+                        }
+                    }
                 }
             }
             match guarded(|| E57Reader::validate_crc(Cursor::new(bytes.clone()))) {
